@@ -9,13 +9,14 @@ from pyvc.api import contract, spec, lemma, record, enum_from_repo
 from pyvc import native, front
 
 PV = "src/polya_verification.py:"
+CLASS_HOME = {"PolyAVerifier": "src/polya_verification.py"}
 IVS = "list[tuple[int,int]]"
 enum_from_repo("src/isoform_assignment.py", "MatchEventSubtype")
 EV = "tuple[enum:MatchEventSubtype,tuple[int,int]]"
 
 record("PolyAVerParams", {"max_fake_terminal_exon_len": "int", "max_missed_exon_len": "int", "delta": "int", "apa_delta": "int"})
-record("PolyAVerifierP", {"params": "rec:PolyAVerParams"})
-native.RECORD_CLASSES["PolyAVerifierP"] = ("src/polya_verification.py", "PolyAVerifier")
+record("PolyAVerifier", {"params": "rec:PolyAVerParams"})
+native.RECORD_CLASSES["PolyAVerifier"] = ("src/polya_verification.py", "PolyAVerifier")
 native.RECORD_CLASSES["PolyAVerParams"] = ("builtin", "namespace")
 
 
@@ -48,9 +49,18 @@ lemma("slen_of_suffix", {"L": IVS, "a": "int", "j": "int"}, props=["C11"],
       requires=["0 <= a", "0 <= j", "a + j <= len(L)"], ensures=["slen(L[a:], j) == slen(L, a + j) - slen(L, a)"], induct="j", base="0")
 
 
+_PAIR_EVENT = [None]
+
+
 def _real_events(am):
     m = native.repo_import("src/isoform_assignment.py")
-    am["matching_events"] = [m.MatchEvent(t, r) for t, r in am["matching_events"]]
+    if _PAIR_EVENT[0] is None:
+        # a real MatchEvent that can also be read as the pair (event_type, isoform_region) the contracts speak about
+        class PairEvent(m.MatchEvent):
+            def __getitem__(self, k):
+                return (self.event_type, self.isoform_region)[k]
+        _PAIR_EVENT[0] = PairEvent
+    am["matching_events"] = [_PAIR_EVENT[0](t, r) for t, r in am["matching_events"]]
     return am
 
 
@@ -65,7 +75,7 @@ def _gen_twins(side):
                 ex.append((a, b))
                 p = b
             pts = [-1] + [e[j] + d for e in ex for j in (0, 1) for d in (-1, 0, 1)] + [rng.randint(0, p + 50)]
-            yield {"self": {"__rec__": "PolyAVerifierP", "params": {"__rec__": "PolyAVerParams", "max_fake_terminal_exon_len": rng.choice([0, 20, 100]),
+            yield {"self": {"__rec__": "PolyAVerifier", "params": {"__rec__": "PolyAVerParams", "max_fake_terminal_exon_len": rng.choice([0, 20, 100]),
                                                                    "max_missed_exon_len": rng.choice([0, 40, 200]), "delta": rng.choice([0, 6]),
                                                                    "apa_delta": 50}},
                    "isoform_exons": ex, "external_poly%s_pos" % side: rng.choice(pts), "internal_poly%s_pos" % side: rng.choice(pts),
@@ -98,7 +108,7 @@ _ens_t = lambda res0, old: [
     % (_pt, _pt, _shift_t.replace("result[0]", res0).replace("old(matching_events)", old)),
 ]
 contract(PV + "PolyAVerifier.detect_reference_exons_before_polyt",
-         {"self": "rec:PolyAVerifierP", "isoform_exons": IVS, _xt: "int", _it: "int", "matching_events": "list[%s]" % EV},
+         {"self": "rec:PolyAVerifier", "isoform_exons": IVS, _xt: "int", _it: "int", "matching_events": "list[%s]" % EV},
          returns="tuple[list[%s],int,int]" % EV, props=["C11"], extract=_events_as_pairs,
          requires=["len(isoform_exons) >= 1", "WF(isoform_exons)", "self.params.delta >= 0"], modifies=["matching_events"],
          ensures=_ens_t("result[0]", "old(matching_events)"),
@@ -132,7 +142,7 @@ _ens_a = lambda res0, old: [
     % (_N, _pa, _pa, _shift_t.replace("result[0]", res0).replace("old(matching_events)", old)),
 ]
 contract(PV + "PolyAVerifier.detect_reference_exons_beyond_polya",
-         {"self": "rec:PolyAVerifierP", "isoform_exons": IVS, _xa: "int", _ia: "int", "matching_events": "list[%s]" % EV},
+         {"self": "rec:PolyAVerifier", "isoform_exons": IVS, _xa: "int", _ia: "int", "matching_events": "list[%s]" % EV},
          returns="tuple[list[%s],int,int]" % EV, props=["C11"], extract=_events_as_pairs,
          requires=["len(isoform_exons) >= 1", "WF(isoform_exons)", "self.params.delta >= 0"], modifies=["matching_events"],
          ensures=_ens_a("result[0]", "old(matching_events)"),
@@ -198,3 +208,155 @@ contract(PV + "shift_polyt", {"read_exons": IVS, "exon_count": "int", "polyt_pos
          loops={0: {"inv": ["dist_to_polya == pt_dist(read_exons, _k0, polyt_pos)"]}},
          gen=lambda rng, n: ({k: v for k, v in d.items() if k != "polya_pos"} for d in _gen_shift(rng, n)),
          canary="result == polyt_pos")
+
+
+# ---- verify_polya / verify_polyt: which events the tail check may remove -------------------------------------------------------------------
+def _undef_region():
+    ia = native.repo_import("src/isoform_assignment.py")
+    return tuple(ia.SupplementaryMatchConstants.undefined_region)
+
+
+class _EventsAsPairsFull(ast.NodeTransformer):
+    """MatchEvent(t, region) -> (t, region); MatchEvent(t, event_info=x) / MatchEvent(t) -> (t, <undefined_region>) (the constructor's default
+    for isoform_region, read from SupplementaryMatchConstants at extraction time); e.event_type -> e[0]; e.isoform_region -> e[1]"""
+
+    def visit_Call(self, node):
+        self.generic_visit(node)
+        if isinstance(node.func, ast.Name) and node.func.id == "MatchEvent":
+            kws = {k.arg: k.value for k in node.keywords}
+            if len(node.args) == 2 and not kws:
+                return ast.Tuple(elts=list(node.args), ctx=ast.Load())
+            if len(node.args) == 1 and set(kws) <= {"event_info", "isoform_region"}:
+                reg = kws.get("isoform_region")
+                if reg is None:
+                    u = _undef_region()
+                    reg = ast.Tuple(elts=[ast.Constant(value=u[0]), ast.Constant(value=u[1])], ctx=ast.Load())
+                return ast.Tuple(elts=[node.args[0], reg], ctx=ast.Load())
+        return node
+
+    def visit_Attribute(self, node):
+        self.generic_visit(node)
+        if node.attr == "event_type" and isinstance(node.value, ast.Name) and node.value.id == "event":
+            return ast.Subscript(value=node.value, slice=ast.Constant(value=0), ctx=node.ctx)
+        if node.attr == "isoform_region" and isinstance(node.value, ast.Name) and node.value.id == "event":
+            return ast.Subscript(value=node.value, slice=ast.Constant(value=1), ctx=node.ctx)
+        return node
+
+
+def _events_as_pairs_full(fdef):
+    """the whole function with MatchEvent objects read as (event_type, isoform_region) pairs (read_region and event_info, which these
+    functions only ever set, are dropped); nothing else is changed"""
+    return ast.fix_missing_locations(_EventsAsPairsFull().visit(copy.deepcopy(fdef)))
+
+
+EVS = "list[%s]" % EV
+record("PolyAInfoV", {"external_polya_pos": "int", "external_polyt_pos": "int", "internal_polya_pos": "int", "internal_polyt_pos": "int"})
+
+contract(PV + "PolyAVerifier.check_if_close",
+         {"self": "rec:PolyAVerifier", "isoform_end": "int", "external_polya_pos": "int", "internal_polya_pos": "int", "matching_events": EVS,
+          "event_type": "enum:MatchEventSubtype"},
+         returns="opt[%s]" % EVS, props=["C11", "C01"], extract=_events_as_pairs_full, native=False, modifies=["matching_events"],
+         # coordinates and tolerances are genomic quantities (far below 2**40); math.inf stands for "no such tail"
+         requires=["0 <= self.params.apa_delta < 2 ** 40", "0 <= isoform_end < 2 ** 40", "-1 <= external_polya_pos < 2 ** 40", "-1 <= internal_polya_pos < 2 ** 40"],
+         ensures=["result is not None or matching_events == old(matching_events)",
+                  "result is None or (result == matching_events and len(matching_events) == len(old(matching_events)) + 1 and "
+                  "matching_events[:len(old(matching_events))] == old(matching_events) and matching_events[len(matching_events) - 1][0] == event_type)",
+                  # close = some tail position within apa_delta of the isoform end; depends on distances only (mirror and shift invariant)
+                  "(result is not None) == ((internal_polya_pos != -1 and abs(isoform_end - internal_polya_pos) <= self.params.apa_delta) or "
+                  "(external_polya_pos != -1 and abs(isoform_end - external_polya_pos) <= self.params.apa_delta))"])
+
+# the same function, read only for what it does to the event list (holds whatever the distance comparisons decide, so no bound on the
+# coordinates is needed for the math.inf model)
+contract(PV + "PolyAVerifier.check_if_close#frame",
+         {"self": "rec:PolyAVerifier", "isoform_end": "int", "external_polya_pos": "int", "internal_polya_pos": "int", "matching_events": EVS,
+          "event_type": "enum:MatchEventSubtype"},
+         returns="opt[%s]" % EVS, props=["C11", "C01"], extract=_events_as_pairs_full, native=False, modifies=["matching_events"],
+         ensures=["result is not None or matching_events == old(matching_events)",
+                  "result is None or (result == matching_events and len(matching_events) == len(old(matching_events)) + 1 and "
+                  "matching_events[:len(old(matching_events))] == old(matching_events) and matching_events[len(matching_events) - 1][0] == event_type)"])
+
+
+@spec("list[tuple[enum:MatchEventSubtype,tuple[int,int]]], int, enum:MatchEventSubtype -> int")
+def nev(E, n, t):
+    # number of events of type t among the first n
+    return 0 if n <= 0 else nev(E, n - 1, t) + (1 if E[n - 1][0] == t else 0)
+
+
+lemma("nev_bounds", {"E": EVS, "n": "int", "t": "enum:MatchEventSubtype"}, props=["C01", "C11"],
+      requires=["0 <= n <= len(E)"], ensures=["0 <= nev(E, n, t) <= n"], induct="n", base="0")
+
+
+native.RECORD_CLASSES["PolyAInfoV"] = ("builtin", "namespace")
+
+
+def _gen_verify(side, tail):
+    def gen(rng, n):
+        names = ["major_exon_elongation_left", "major_exon_elongation_right", "exon_elongation_left", "exon_elongation_right",
+                 "fake_terminal_exon_left", "fake_terminal_exon_right", "terminal_exon_misalignment_left", "terminal_exon_misalignment_right",
+                 "intron_retention", "exon_skipping_known", "terminal_site_match_left", "terminal_site_match_right", "fsm", "ism_left", "ism_right"]
+        for _ in range(n):
+            k = rng.randint(1, 4)
+            ex, p = [], rng.randint(10, 50)
+            for _i in range(k):
+                a = p + rng.randint(5, 120)
+                b = a + rng.randint(3, 90)
+                ex.append((a, b))
+                p = b
+            rd = [(a + rng.randint(-3, 3), b) for a, b in ex[rng.randint(0, k - 1):]] if rng.random() < .5 else list(ex)
+            rd = [(a, max(a, b)) for a, b in rd]
+            end = ex[-1][1] if side == "right" else ex[0][0]
+            pos = lambda: rng.choice([-1, end, end + rng.randint(-60, 60), rng.randint(1, p + 60)])
+            e_pos, i_pos = pos(), pos()
+            if e_pos == -1 and i_pos == -1:
+                e_pos = end
+            info = {"__rec__": "PolyAInfoV", "external_polya_pos": -1, "external_polyt_pos": -1, "internal_polya_pos": -1, "internal_polyt_pos": -1}
+            info["external_poly%s_pos" % tail], info["internal_poly%s_pos" % tail] = e_pos, i_pos
+            evs = [(("enum", "MatchEventSubtype", rng.choice(names)), (rng.randint(0, 3),) * 2) for _e in range(rng.randint(0, 4))]
+            # never as many fake terminal exons as read exons (the assigner's own invariant)
+            while sum(1 for t, _r in evs if t[2] == "fake_terminal_exon_" + side) >= len(rd):
+                evs = [e for e in evs if e[0][2] != "fake_terminal_exon_" + side]
+            yield {"self": {"__rec__": "PolyAVerifier", "params": {"__rec__": "PolyAVerParams", "max_fake_terminal_exon_len": rng.choice([0, 20, 100]),
+                                                                   "max_missed_exon_len": rng.choice([0, 40, 200]), "delta": rng.choice([0, 6]),
+                                                                   "apa_delta": rng.choice([0, 50])}},
+                   "isoform_exons": ex, "read_exons": rd, "polya_info": info, "matching_events": evs}
+    return gen
+
+
+def _verify_contract(side, tail, other):
+    """side: 'right' for verify_polya (3' end of a '+' isoform), 'left' for verify_polyt; the two contracts are mirror images"""
+    MS = "MatchEventSubtype."
+    ER = "(%(o)s[j][0] == " + MS + "major_exon_elongation_%s or %%(o)s[j][0] == " % side + MS + "exon_elongation_%s)" % side
+    ER = ER % {"o": "old(matching_events)"}
+    ext, inn = "polya_info.external_poly%s_pos" % tail, "polya_info.internal_poly%s_pos" % tail
+    ENS = [
+        # the tail check replaces only the elongation event of its OWN side: every other event the assigner found - in particular an
+        # elongation or any inconsistency at the opposite end - is still reported, in the same order
+        "all(%s or result[j] == old(matching_events)[j] or (j >= 1 and result[j - 1] == old(matching_events)[j]) "
+        "for j in range(len(old(matching_events))))" % ER,
+        "len(result) >= len(old(matching_events))",
+        # and it always says what it concluded about the tail
+        "result[len(result) - 1][0] == %scorrect_polya_site_%s or result[len(result) - 1][0] == %salternative_polya_site_%s"
+        % (MS, side, MS, side)]
+    NATIVE_ENS = [e.replace("old(matching_events)", "old(%s)" % (_PAIRS % "matching_events")).replace("result", "(%s)" % (_PAIRS % "result"))
+                  for e in ENS]
+    contract(PV + "PolyAVerifier.verify_poly" + tail,
+             {"self": "rec:PolyAVerifier", "isoform_exons": IVS, "read_exons": IVS, "polya_info": "rec:PolyAInfoV", "matching_events": EVS},
+             returns=EVS, props=["C01", "C11"], extract=_events_as_pairs_full, modifies=["matching_events"],
+             bind={"call:check_if_close": PV + "PolyAVerifier.check_if_close#frame"},
+             native_args=_real_events, gen=_gen_verify(side, tail), native_ensures=NATIVE_ENS,
+             requires=["len(isoform_exons) >= 1", "WF(isoform_exons)", "len(read_exons) >= 1", "self.params.delta >= 0",
+                       "%s != -1 or %s != -1" % (ext, inn),
+                       # the assigner reports at most one fake terminal exon per read exon it removes, never all of them
+                       "nev(matching_events, len(matching_events), %sfake_terminal_exon_%s) < len(read_exons)" % (MS, side)],
+             ensures=ENS,
+             loops={0: {"inv": ["event_to_remove == -1 or (0 <= event_to_remove < _k0 and "
+                                "(matching_events[event_to_remove][0] == %smajor_exon_elongation_%s or matching_events[event_to_remove][0] == %sexon_elongation_%s))"
+                                % (MS, side, MS, side),
+                                "fake_terminal_exon_count == nev(matching_events, _k0, %sfake_terminal_exon_%s)" % (MS, side),
+                                "terminal_exon_misaligned >= 0"],
+                        "exit_hints": ["nev_bounds(matching_events, len(matching_events), %sfake_terminal_exon_%s)" % (MS, side)]}},
+             timeout=40000)
+
+
+_verify_contract("right", "a", "t")
+_verify_contract("left", "t", "a")
